@@ -3,7 +3,7 @@
    (first occurrence only, and only ids of floating inscriptions of the transaction: inscriptions held by
    its inputs or revealed by it), link_parents = the loop over parents in update_inscription_location
    (SEQUENCE_NUMBER_TO_CHILDREN, the two collection tables, InscriptionEntry.parents). *)
-From OrdV Require Import Base.Prelude Generated Index.Inscr Proofs.Inscr_tables Proofs.Inscr_proofs Proofs.Inscr_c07.
+From OrdV Require Import Base.Prelude Generated Index.Inscr Proofs.Inscr_tables Proofs.Inscr_proofs Proofs.Inscr_c07 Proofs.Inscr_c07b.
 
 (* For every chain (no validity assumption at all) and every configuration, whenever indexing succeeds: *)
 Theorem C07_tables : forall cfg c st,
@@ -40,6 +40,17 @@ Proof.
   split; [apply A; auto | intros id Hid; eapply B; eauto].
 Qed.
 
+(* ... spelled out: a kept parent id is either an id of the reveal transaction itself (an inscription it
+   reveals) or the id of an inscription listed by the UTXO entry of one of its inputs ([ents] are the entries
+   index_utxo_entries took out of the UTXO map for the inputs) - i.e. an inscription the transaction spends. *)
+Theorem C07_parents_spent_or_revealed : forall cfg st h t ents F tiv,
+  floating_of cfg st h t ents = Ok (F, tiv) ->
+  forall f pid, In f F -> In pid (parents_of f) ->
+    fst pid = t_id t \/
+    exists u seq off e, In u ents /\ In (seq, off) (u_insc u) /\
+      tget N.eqb seq (s_entries st) = Some e /\ i_id e = pid.
+Proof. exact parents_spent_or_revealed. Qed.
+
 (* (2) when the inscription is stored, every child/parent pair that appears is (parent, the new sequence
    number) for a kept parent id that already has a sequence number (so a parent revealed later in the same
    transaction, which has none yet, is dropped); nothing else changes in the children table. *)
@@ -69,3 +80,4 @@ Proof. eexists. split; [vm_compute; reflexivity|]. repeat split. Qed.
 Print Assumptions C07_tables.
 Print Assumptions C07_parents_are_floating.
 Print Assumptions C07_only_kept_parents_recorded.
+Print Assumptions C07_parents_spent_or_revealed.
